@@ -292,7 +292,7 @@ def score_profile_from_rankings(
                 local_score_vector = score_vector[
                     current_ind : current_ind + position_size
                 ]
-                allocation = sum(local_score_vector) / position_size
+                allocation = Fraction(sum(local_score_vector)) / position_size
                 for c in s:
                     scores[c] += Fraction(allocation) * ballot.weight
                 current_ind += position_size
